@@ -9,6 +9,8 @@
 //	          "undefined": no signature over any candidate digest may be accepted.
 //	cache     request orders exported from the cache machine, replayed on ONE Tx object sequentially and
 //	          from concurrent goroutines; every result must equal the uncached reference.
+//	burst     cache warm-up prefix + concurrent burst scenarios on a transaction with thousands of inputs, G goroutines
+//	          asking for digests of different inputs with different hash types; compared with the uncached reference.
 //	vecprep / veccheck   self-check of the reference against Bitcoin Core's sighash.json (legacy digests)
 //	          and the real BIP143 signatures of tx_valid.json.
 //	selftest  the signer against its own verifier and the BIP340 vectors.
@@ -798,6 +800,226 @@ func cmdCache(args []string) {
 	out.Flush()
 }
 
+// ---------------------------------------------------------------- concurrent bursts on a transaction with many inputs
+
+type bkind struct {
+	Mode string `json:"mode"`
+	Lo   int    `json:"lo"`
+}
+
+type scenario struct {
+	Warm  bkind    `json:"warm"`
+	Burst []bkind  `json:"burst"`
+	Cold  []string `json:"cold"`
+}
+
+func scenString(sc *scenario) string {
+	var p []string
+	for _, k := range sc.Burst {
+		p = append(p, fmt.Sprintf("%s/0x%02x", k.Mode, k.Lo))
+	}
+	w := "no warm-up"
+	if sc.Warm.Mode != "none" {
+		w = fmt.Sprintf("warm-up %s/0x%02x", sc.Warm.Mode, sc.Warm.Lo)
+	}
+	return w + ", burst " + strings.Join(p, " ")
+}
+
+// cmdBurst: for every scenario a fresh Tx object of a transaction with many inputs (so that filling the lazily
+// cached hashes takes long): the warm-up request (if any) completes, then G goroutines released together request
+// digests for different sampled inputs, cycling through the request kinds of the burst; every digest is compared
+// with the reference computed without any cache.
+func cmdBurst(args []string) {
+	fs := flag.NewFlagSet("burst", flag.ExitOnError)
+	in := fs.String("in", "-", "VFS lines")
+	table := fs.String("table", "", "VFR lines")
+	seed := fs.Int64("seed", 1, "seed")
+	nin := fs.Int("nin", 2000, "inputs")
+	nout := fs.Int("nout", 1000, "outputs")
+	gor := fs.Int("g", 8, "goroutines of a burst")
+	per := fs.Int("per", 3, "requests per goroutine")
+	reps := fs.Int("reps", 2, "repetitions of every scenario (fresh object each)")
+	fs.Parse(args)
+	script.DBG_ERR = false
+	w := newWorld(*seed)
+	out := vio.NewOut()
+	pre := map[creq]*preimage{}
+	idxSet := map[int]bool{}
+	if err := vio.ReadLines(*table, func(n int, line []byte) error {
+		var e struct {
+			Req creq     `json:"req"`
+			Pre preimage `json:"pre"`
+		}
+		if err := json.Unmarshal(line, &e); err != nil {
+			return err
+		}
+		pre[e.Req] = &e.Pre
+		idxSet[e.Req.Idx] = true
+		return nil
+	}); err != nil {
+		fmt.Fprintln(os.Stderr, err)
+		os.Exit(2)
+	}
+	var idxs []int
+	for i := 0; i < *nin; i++ {
+		if idxSet[i] {
+			idxs = append(idxs, i)
+		}
+	}
+	if len(idxs) == 0 {
+		fmt.Fprintln(os.Stderr, "empty request table")
+		os.Exit(2)
+	}
+	// one transaction per (seed, GOMAXPROCS): short scripts, the cost is in the number of inputs / outputs
+	rng := w.rng([]byte(fmt.Sprintf("burst-%d-%d-%d", *nin, *nout, runtime.GOMAXPROCS(0))))
+	t := randTx(rng, *nin, *nout)
+	code, _ := (&evalCtx{pk: w.keys[0].comp}).render([]int{tokPPK, 172})
+	raw := t.serialize()
+	want := map[creq][]byte{}
+	var wmu sync.Mutex
+	ref := func(r creq) ([]byte, error) { // the sequential, uncached reference (memoised)
+		wmu.Lock()
+		defer wmu.Unlock()
+		if d, ok := want[r]; ok {
+			return d, nil
+		}
+		p := pre[r]
+		if p == nil {
+			return nil, fmt.Errorf("request %v not in the table", r)
+		}
+		var d []byte
+		if p.Def != "undefined" {
+			var err error
+			d, err = (&evalCtx{tx: t, idx: r.Idx, pk: w.keys[0].comp}).digest(p)
+			if err != nil {
+				return nil, err
+			}
+		}
+		want[r] = d
+		return d, nil
+	}
+	fresh := func() *btc.Tx {
+		tx, off := btc.NewTx(raw)
+		if tx == nil || off != len(raw) {
+			return nil
+		}
+		tx.SetHash(raw)
+		tx.AllocVerVars()
+		tx.Spent_outputs = make([]*btc.TxOut, len(t.ins))
+		for i := range t.spent {
+			tx.Spent_outputs[i] = &btc.TxOut{Value: t.spent[i].value, Pk_script: t.spent[i].spk}
+		}
+		return tx
+	}
+	call := func(tx *btc.Tx, r creq) (got []byte, p string) {
+		p = safely(func() {
+			switch r.Mode {
+			case "legacy":
+				got = tx.SignatureHash(code, r.Idx, int32(r.Lo))
+			case "bip143":
+				got = tx.WitnessSigHash(code, t.spent[r.Idx].value, r.Idx, int32(r.Lo))
+			case "bip341":
+				got = tx.TaprootSigHash(&btc.ScriptExecutionData{M_codeseparator_pos: 0xffffffff}, r.Idx, byte(r.Lo), false)
+			}
+		})
+		return
+	}
+	scen, nontrivial, calls, fail, bad, failedRuns := 0, 0, 0, 0, 0, 0
+	err := vio.ReadLines(*in, func(n int, line []byte) error {
+		var sc scenario
+		if err := json.Unmarshal(line, &sc); err != nil || len(sc.Burst) == 0 {
+			return fmt.Errorf("bad scenario line %d: %v", n, err)
+		}
+		scen++
+		if len(sc.Cold) > 0 {
+			nontrivial++
+		}
+		// the programs of the goroutines: different inputs and different kinds, fixed by (scenario, g, j)
+		type rq struct {
+			r    creq
+			want []byte
+		}
+		progs := make([][]rq, *gor)
+		for g := range progs {
+			for j := 0; j < *per; j++ {
+				k := sc.Burst[(g+j)%len(sc.Burst)]
+				r := creq{Mode: k.Mode, Idx: idxs[(g*(*per)+j+n)%len(idxs)], Lo: k.Lo}
+				d, err := ref(r)
+				if err != nil {
+					return err
+				}
+				progs[g] = append(progs[g], rq{r, d})
+			}
+		}
+		for rep := 0; rep < *reps; rep++ {
+			tx := fresh()
+			if tx == nil {
+				return fmt.Errorf("btc.NewTx could not parse the reference serialisation")
+			}
+			before := fail
+			report := func(stage string, r creq, want, got []byte, p string) {
+				fail++
+				if bad < 40 {
+					out.Put(failure{Line: n, Rule: "burst-" + r.Mode,
+						What: fmt.Sprintf("a %s request on a %d-input transaction (%s; GOMAXPROCS %d, %d goroutines) returned a digest that differs from the uncached definition: %s input %d hash type 0x%02x",
+							stage, *nin, scenString(&sc), runtime.GOMAXPROCS(0), *gor, r.Mode, r.Idx, r.Lo),
+						Case: sc, Detail: map[string]interface{}{"want": hx(want), "got": hx(got), "panic": p, "rep": rep, "nin": *nin, "nout": *nout}})
+				}
+				bad++
+			}
+			if sc.Warm.Mode != "none" {
+				r := creq{Mode: sc.Warm.Mode, Idx: idxs[n%len(idxs)], Lo: sc.Warm.Lo}
+				d, err := ref(r)
+				if err != nil {
+					return err
+				}
+				got, p := call(tx, r)
+				calls++
+				if d != nil && (p != "" || !bytes.Equal(got, d)) {
+					report("warm-up", r, d, got, p)
+				}
+			}
+			gots := make([][][]byte, *gor)
+			panics := make([][]string, *gor)
+			start := make(chan struct{})
+			var cw sync.WaitGroup
+			for g := range progs {
+				gots[g] = make([][]byte, len(progs[g]))
+				panics[g] = make([]string, len(progs[g]))
+				cw.Add(1)
+				go func(g int) {
+					defer cw.Done()
+					<-start
+					for j, q := range progs[g] {
+						gots[g][j], panics[g][j] = call(tx, q.r)
+					}
+				}(g)
+			}
+			close(start)
+			cw.Wait()
+			for g := range progs {
+				for j, q := range progs[g] {
+					calls++
+					if q.want != nil && (panics[g][j] != "" || !bytes.Equal(gots[g][j], q.want)) {
+						report("concurrent", q.r, q.want, gots[g][j], panics[g][j])
+					}
+				}
+			}
+			if fail > before {
+				failedRuns++
+			}
+		}
+		return nil
+	})
+	if err != nil {
+		fmt.Fprintln(os.Stderr, err)
+		os.Exit(2)
+	}
+	out.Put(map[string]interface{}{"summary": true, "scenarios": scen, "nontrivial": nontrivial, "runs": scen * *reps, "failed_runs": failedRuns, "calls": calls, "fail": fail,
+		"requests": len(pre), "gomaxprocs": runtime.GOMAXPROCS(0), "nin": *nin, "nout": *nout, "goroutines": *gor})
+	out.Flush()
+}
+
 func orderString(st []cstep) string {
 	var p []string
 	for _, s := range st {
@@ -1093,7 +1315,7 @@ func cmdSelfTest(args []string) {
 
 func main() {
 	if len(os.Args) < 2 {
-		fmt.Fprintln(os.Stderr, "usage: sighash replay|cache|vecprep|veccheck|selftest ...")
+		fmt.Fprintln(os.Stderr, "usage: sighash replay|cache|burst|vecprep|veccheck|selftest ...")
 		os.Exit(2)
 	}
 	switch os.Args[1] {
@@ -1101,6 +1323,8 @@ func main() {
 		cmdReplay(os.Args[2:])
 	case "cache":
 		cmdCache(os.Args[2:])
+	case "burst":
+		cmdBurst(os.Args[2:])
 	case "vecprep":
 		cmdVecPrep(os.Args[2:])
 	case "veccheck":
